@@ -12,18 +12,25 @@ never to evidence/). A "violation" case passes
 when at least one listed check exits 1 with a VIOLATION line; a "pass" case
 when every listed check exits 0. Results go to selftest/RESULTS.json.
 """
-import json, os, subprocess, sys, time
+import json, os, subprocess, sys, time, shutil, threading, queue
 
 HERE = os.path.dirname(os.path.dirname(os.path.abspath(__file__)))
 SRC = "/repo"
-# The corpus is applied to a scratch copy (outside /repo and /verif, removed
-# at the end) so that /repo's working tree is never touched.
-REPO = "/tmp/verif_selftest_repo"
-ENV = dict(os.environ, GOFLAGS="-mod=mod", GOPROXY="off", GOSUMDB="off", GOTOOLCHAIN="local", VERIF_REPO=REPO)
+# The corpus is applied to scratch copies (outside /repo and /verif, removed
+# at the end) so that /repo's working tree is never touched. Each worker has
+# its own copy of the repository and its own output directory (work files,
+# replays, scratch evidence), so cases can run side by side.
+BASE = "/tmp/verif_selftest"
+JOBS = int(os.environ.get("SELFTEST_JOBS", "3"))
 
 
-def sh(cmd, cwd=None):
-    p = subprocess.run(cmd, shell=True, cwd=cwd, env=ENV, stdout=subprocess.PIPE, stderr=subprocess.STDOUT, text=True)
+def env_for(k):
+    return dict(os.environ, GOFLAGS="-mod=mod", GOPROXY="off", GOSUMDB="off", GOTOOLCHAIN="local",
+                VERIF_REPO="%s/repo%d" % (BASE, k), VERIF_OUT="%s/out%d" % (BASE, k))
+
+
+def sh(cmd, cwd=None, env=None):
+    p = subprocess.run(cmd, shell=True, cwd=cwd, env=env, stdout=subprocess.PIPE, stderr=subprocess.STDOUT, text=True, errors="replace")
     return p.returncode, p.stdout
 
 
@@ -31,7 +38,14 @@ def cases(args):
     out = []
     if args:
         for a in args:
-            out.append(a if os.path.isabs(a) else os.path.join(HERE, a))
+            a = a if os.path.isabs(a) else os.path.join(HERE, a)
+            if os.path.isfile(os.path.join(a, "patch.diff")):
+                out.append(a)
+            elif os.path.isdir(a):
+                for m in sorted(os.listdir(a)):
+                    q = os.path.join(a, m)
+                    if os.path.isfile(os.path.join(q, "patch.diff")):
+                        out.append(q)
         return out
     for root in ("selftest", "seeded"):
         d = os.path.join(HERE, root)
@@ -49,48 +63,80 @@ def cases(args):
     return out
 
 
+def run_case(c, k):
+    env = env_for(k)
+    repo, out = env["VERIF_REPO"], env["VERIF_OUT"]
+    meta = json.load(open(os.path.join(c, "meta.json")))
+    name = os.path.relpath(c, HERE)
+    sh("rsync -a --delete --exclude .git %s/ %s/" % (SRC, repo))
+    os.makedirs(out, exist_ok=True)
+    shutil.copy(os.path.join(HERE, "known_findings.json"), os.path.join(out, "known_findings.json"))
+    pd = os.path.join(c, "patch.diff")
+    rc, o = sh("git apply " + pd, repo, env)
+    if rc != 0:
+        # the tree has moved on since the patch was recorded (fix commits): try with fuzz
+        sh("rsync -a --delete --exclude .git %s/ %s/" % (SRC, repo))
+        rc, o = sh("patch -p1 -F3 --no-backup-if-mismatch -s < " + pd, repo, env)
+        sh("find . -name '*.orig' -delete -o -name '*.rej' -delete", repo, env)
+    if rc != 0:
+        print("%-40s PATCH DOES NOT APPLY" % name, flush=True)
+        return {"case": name, "ok": False, "why": "patch does not apply"}
+    rcb, outb = sh("go build ./... && go build -tags verif ./...", repo, env)
+    got = {}
+    failed = []
+    t0 = time.time()
+    for p in meta["properties"]:
+        rc, o = sh("./check " + p, HERE, env)
+        viol = [l for l in o.splitlines() if l.startswith("VIOLATION")]
+        failed += [l.strip() for l in o.splitlines() if l.startswith("  obligation") or l.startswith("reason:")]
+        got[p] = {"exit": rc, "violations": len(viol)}
+    secs = time.time() - t0
+    if meta["expect"] == "violation":
+        ok = any(v["exit"] == 1 and v["violations"] > 0 for v in got.values())
+    else:
+        ok = all(v["exit"] == 0 and v["violations"] == 0 for v in got.values())
+    if rcb != 0:
+        ok = False
+    lines = ["%-40s %-4s expect=%-9s %s %.0fs" % (name, "ok" if ok else "BAD", meta["expect"], json.dumps(got), secs)]
+    for f in failed[:6]:
+        lines.append("      " + f[:200])
+    if rcb != 0:
+        lines.append("      does not build: " + outb[:300])
+    print("\n".join(lines), flush=True)
+    return {"case": name, "ok": ok, "expect": meta["expect"], "got": got, "failed_obligations": failed, "builds": rcb == 0}
+
+
 def main():
-    sh("rm -rf %s && mkdir -p %s && rsync -a --exclude .git %s/ %s/" % (REPO, REPO, SRC, REPO))
+    sh("rm -rf %s && mkdir -p %s" % (BASE, BASE))
+    cs = cases(sys.argv[1:])
+    q = queue.Queue()
+    for c in cs:
+        q.put(c)
     results = []
-    bad = 0
-    for c in cases(sys.argv[1:]):
-        meta = json.load(open(os.path.join(c, "meta.json")))
-        name = os.path.relpath(c, HERE)
-        sh("rsync -a --delete --exclude .git %s/ %s/" % (SRC, REPO))
-        rc, out = sh("git apply " + os.path.join(c, "patch.diff"), REPO)
-        if rc != 0:
-            print("%-40s PATCH DOES NOT APPLY" % name)
-            results.append({"case": name, "ok": False, "why": "patch does not apply"})
-            bad += 1
-            continue
-        try:
-            rcb, outb = sh("go build ./... && go vet -tags verif ./... >/dev/null 2>&1; go build -tags verif ./...", REPO)
-            got = {}
-            failed = []
-            t0 = time.time()
-            for p in meta["properties"]:
-                rc, out = sh("./check " + p, HERE)
-                viol = [l for l in out.splitlines() if l.startswith("VIOLATION")]
-                failed += [l.strip() for l in out.splitlines() if l.startswith("  obligation")]
-                got[p] = {"exit": rc, "violations": len(viol)}
-            secs = time.time() - t0
-            if meta["expect"] == "violation":
-                ok = any(v["exit"] == 1 and v["violations"] > 0 for v in got.values())
-            else:
-                ok = all(v["exit"] == 0 and v["violations"] == 0 for v in got.values())
-            if rcb != 0:
-                ok = False
-            print("%-40s %-4s expect=%-9s %s %.0fs" % (name, "ok" if ok else "BAD", meta["expect"], json.dumps(got), secs))
-            for f in failed[:6]:
-                print("      " + f[:200])
-            if rcb != 0:
-                print("      does not build: " + outb[:300])
-            results.append({"case": name, "ok": ok, "expect": meta["expect"], "got": got, "failed_obligations": failed, "builds": rcb == 0})
-            if not ok:
-                bad += 1
-        finally:
-            pass
-    sh("rm -rf " + REPO)
+    lock = threading.Lock()
+
+    def worker(k):
+        while True:
+            try:
+                c = q.get_nowait()
+            except queue.Empty:
+                return
+            try:
+                r = run_case(c, k)
+            except Exception as e:  # a broken case must not stop the corpus
+                r = {"case": os.path.relpath(c, HERE), "ok": False, "why": "runner error: %s" % e}
+                print("%-40s RUNNER ERROR %s" % (r["case"], e), flush=True)
+            with lock:
+                results.append(r)
+
+    ths = [threading.Thread(target=worker, args=(k,)) for k in range(min(JOBS, max(1, len(cs))))]
+    for t in ths:
+        t.start()
+    for t in ths:
+        t.join()
+    sh("rm -rf " + BASE)
+    bad = sum(1 for r in results if not r.get("ok"))
+    results.sort(key=lambda r: r["case"])
     # RESULTS.json holds the latest result of every case: a run of the whole
     # corpus rewrites it, a run of selected cases replaces just their entries.
     print("%d cases run, %d bad" % (len(results), bad))
